@@ -250,6 +250,29 @@ def norm_r(r):
     return "panic" if r.startswith("panic") else r
 
 
+def check_iq_oracle(st, orc, case):
+    """Hypothesis iq_shrinks of C03_analyse_total / C03_parse_total: whenever the find_inline_quantity oracle
+    splits a text, the remainder is shorter (in characters) than the text."""
+    if " Q 0 " in orc or " Q " not in orc:
+        return
+    t = orc.split(" ")
+    i = t.index("Q")
+    n = int(t[i + 1])
+    j = i + 2
+    for _ in range(n):
+        if t[j + 1] == "1":
+            st["iq_splits"] += 1
+            if len(unhx(t[j + 3])) >= len(unhx(t[j])):
+                s, e, c, m = case
+                st["disagreements"].append((s, {"input": s, "input_hex": hx(s), "extensions": e, "converter": c,
+                                                "what": "oracle hypothesis iq_shrinks fails: find_inline_quantity "
+                                                        "returned a remainder that is not shorter than its text",
+                                                "text": t[j], "after": t[j + 3]}))
+            j += 4
+        else:
+            j += 2
+
+
 def check_batch(rep, st, cases, bins, runner, label):
     """cases: list of (input, ext, conv, mut). Updates the statistics `st`."""
     lines = ["%s %d %d %s" % (hx(s), e, c, m) for (s, e, c, m) in cases]
@@ -302,6 +325,8 @@ def check_batch(rep, st, cases, bins, runner, label):
                                             "mutation": m, "build": name, "violated": f["V"], "impl": f["R"][:600]}))
             if f["OR"].endswith("H 1"):
                 st["oracle_insane"] += 1
+            if name == "release" or "release" not in outs:
+                check_iq_oracle(st, f["OR"], case)
         if "debug" in outs and "release" in outs:
             d, r_ = outs["debug"][i], outs["release"][i]
             if d["EV"] != "panic" and (d["R"] != r_["R"] or d["EV"] != r_["EV"]):
@@ -397,7 +422,7 @@ def new_stats():
             "parser_panics_debug": 0, "parser_panics_release": 0, "parser_panic_samples": [],
             "mutated": 0, "mutated_collector_panics": 0, "oracle_insane": 0,
             "monitor_fired_outside_hypothesis": 0, "monitor_vs_decider": 0, "decider_rejects": 0,
-            "nontrivial": set(),
+            "nontrivial": set(), "iq_splits": 0,
             "debug_release_diff": 0, "debug_release_samples": [], "samples": []}
 
 
@@ -492,6 +517,7 @@ def run(rep, tier, seed):
                           "samples": st["parser_panic_samples"]},
         "debug_release_differences": st["debug_release_diff"], "debug_release_samples": st["debug_release_samples"],
         "unicase_not_an_equivalence": st["oracle_insane"],
+        "inline_quantity_splits_checked_to_shrink": st["iq_splits"],
         "correspondence_disagreements": len(st["disagreements"]), "monitor_violations": len(hits),
         "samples": st["samples"],
     })
